@@ -103,7 +103,7 @@ pub fn run_args(a: &Args) -> RunArgs {
         lens: a.list("lens", "0,1,2,3,5,8,13,1,2,3,5,8,33,64").iter().map(|s| s.parse().unwrap()).collect(),
         tmin,
         tmax,
-        hints: a.list("hints", "exact,exact,inexact,unbounded").iter().map(|s| Hint::parse(s)).collect(),
+        hints: a.list("hints", "exact,exact,inexact,unbounded,exact_nf,unbounded_nf").iter().map(|s| Hint::parse(s)).collect(),
         race: a.flag("race"),
         perturb: a.u64("perturb", 0) as u32,
         finish: a.str("finish", "mix"),
@@ -120,7 +120,7 @@ pub fn make_case(ra: &RunArgs, e: u64) -> Case {
     let nthreads = rng.range(ra.tmin, ra.tmax);
     let mut scripts = Vec::new();
     for _ in 0..nthreads {
-        scripts.push(gen_script(&mut rng, &ra.profile, len));
+        scripts.push(gen_script(&mut rng, &ra.profile, len, kinds::is_wrapped(&kind)));
     }
     // at least one thread does something
     if scripts.iter().all(|s| s.pre.is_empty() && s.drain.is_empty() && s.post.is_empty()) {
@@ -394,18 +394,28 @@ fn cmd_run(a: &Args) -> i32 {
             let kind = base.kind.as_str();
             let which = match inject.as_str() {
                 "auto" => {
-                    if kinds::has_probe(kind) && (e / nshards) % 2 == 0 {
-                        "next"
-                    } else if kind.starts_with("cloned") {
-                        "clone"
-                    } else if script_has_closure(&base) {
-                        "closure"
-                    } else if kinds::has_probe(kind) {
-                        "next"
-                    } else {
+                    let mut c: Vec<&str> = Vec::new();
+                    if kinds::has_probe(kind) {
+                        c.push("next");
+                    }
+                    if kind.starts_with("cloned") {
+                        c.push("clone");
+                    }
+                    if script_has_closure(&base) {
+                        c.push("closure");
+                    }
+                    if kinds::is_consuming(kind) {
+                        c.push("drop");
+                    }
+                    if c.is_empty() {
                         "skip"
+                    } else {
+                        c[((e / nshards) as usize) % c.len()]
                     }
                 }
+                "drop" if !kinds::is_consuming(kind) => "skip",
+                "next" if !kinds::has_probe(kind) => "skip",
+                "clone" if !kind.starts_with("cloned") => "skip",
                 w => w,
             };
             if which != "skip" {
@@ -418,6 +428,7 @@ fn cmd_run(a: &Args) -> i32 {
                     c.cfg.inject = match which {
                         "next" => Inject::WrappedNext(k as i64),
                         "clone" => Inject::Clone(k as i64),
+                        "drop" => Inject::Drop(k as i64),
                         _ => Inject::Closure(k as i64),
                     };
                     agg.inject_points += 1;
